@@ -25,7 +25,9 @@ STUB = ["resampling actor (harness answers ComponentMetricRequests and feeds res
 RULE = ("one run = 1-3 PV meters with 1-2 inverters each (optionally one bare inverter), 8-30 rounds; per (primary, T) "
         "valid/None/NaN with burst failures and recovery, optional close of a primary stream at a drawn round, per "
         "fallback stream a lag of 0-2 rounds and a drawn order inside a round (fallback before/after primary); "
-        "non-trivial = at least one primary failure; distinct = abstract digest of (fault kind, component) sequence")
+        "non-trivial = at least one primary failure; distinct = abstract digest of (fault kind, component) sequence"
+        " Generators: PV, battery, grid, producer, consumer and grid-reactive power; per-component UTC offsets of"
+        " the stamps.")
 QUICK_RUNS = 4000
 THOROUGH_RUNS = 250_000
 EXPECT_PROBES = ["primary_lagging", "transient_primary_error", "grid_formula_variant", "battery_formula_variant", "fallback_started", "fallback_lagging", "primary_recovered", "fallback_before_primary", "primary_closed",
